@@ -73,29 +73,68 @@ func vfC12Qualifies(count, total, k int) bool {
 	return 8*count >= k*total
 }
 
-// vfC12Cutoff returns a dyadic cutoff k/8 (exactly representable, so that the comparison with
-// the fraction is exact at ties) and k. Every k in lo..hi is a separate case: a symbolic k makes
-// the library's cutoff*float64(total) a non-linear real product, which costs the solver far more
-// than the case split. lo/hi may reach outside 0..8 to cover "outside [0,1] means 0".
-func vfC12Cutoff(lo, hi int) (float64, int) {
-	k := nondetRange(lo, hi)
-	return float64(k) / 8, k
+// Cutoffs are k/8 with a concrete k (one case per value): exactly representable, so the library's
+// floating-point comparison is exact at ties. A symbolic k would make the library's
+// cutoff*float64(total) a non-linear real product, which costs the solver far more than the split.
+
+// vfC12Known reports whether the finding is listed in known_findings.txt.
+func vfC12Known(key string) bool { return verifKnown(key) }
+
+// vfC12Expect is the oracle's verdict in the form in which it is checked. It is computed BEFORE
+// the call under test: the solver work for the reference model is then shared by all the paths
+// through the library code, and after the call only plain assertions remain (the outcome of a
+// call - which columns were removed, the two counts - is concrete on every path).
+type vfC12Expect struct {
+	okRemoved, okKept []bool // per column (per row for the sequence variant): is "removed" / "kept" a correct outcome
+	okFirst, okLast   []bool // index v in 0..L: is v a correct leading / trailing count
 }
 
-// vfC12Known: DEBUG gate
-func vfC12Known(key string) bool { return true || verifKnown(key) }
-
-func vfC12B2I(b bool) int {
-	if b {
-		return 1
+// vfC12ExpectSites turns the per-column verdicts into expectations.
+//   - not ends: column j must be removed iff qual[j] (nothing is asserted where !defined[j]);
+//   - ends: exactly the maximal qualifying prefix and suffix must be removed;
+//   - first / last must be the lengths of the maximal qualifying prefix / suffix.
+//
+// The two last items involve all columns and are asserted only when every column is defined.
+func vfC12ExpectSites(L int, ends bool, qual, defined []bool) vfC12Expect {
+	var e vfC12Expect
+	allDef := true
+	for j := 0; j < L; j++ {
+		allDef = allDef && defined[j]
 	}
-	return 0
+	pre, suf := 0, 0
+	run := true
+	for j := 0; j < L; j++ {
+		run = run && qual[j]
+		if run {
+			pre++
+		}
+	}
+	run = true
+	for j := L - 1; j >= 0; j-- {
+		run = run && qual[j]
+		if run {
+			suf++
+		}
+	}
+	for j := 0; j < L; j++ {
+		if ends {
+			want := j < pre || j >= L-suf
+			e.okRemoved = append(e.okRemoved, !allDef || want)
+			e.okKept = append(e.okKept, !allDef || !want)
+		} else {
+			e.okRemoved = append(e.okRemoved, !defined[j] || qual[j])
+			e.okKept = append(e.okKept, !defined[j] || !qual[j])
+		}
+	}
+	for v := 0; v <= L; v++ {
+		e.okFirst = append(e.okFirst, !allDef || pre == v)
+		e.okLast = append(e.okLast, !allDef || suf == v)
+	}
+	return e
 }
 
-// vfC12CheckSites asserts everything the property says about the outcome of a site-cleaning
-// call, given the oracle's verdict qual[j] for every column (valid where defined[j]).
-func vfC12CheckSites(al *align, orig [][]uint8, n, L int, ends bool, qual, defined []bool,
-	first, last int, kept, rm []int) {
+// vfC12CheckSites asserts everything the property says about the outcome of a site-cleaning call.
+func vfC12CheckSites(al *align, orig [][]uint8, n, L int, e vfC12Expect, first, last int, kept, rm []int) {
 	// --- structure: kept and removed are sorted and partition 0..L-1
 	prev := -1
 	for _, p := range kept {
@@ -136,46 +175,52 @@ func vfC12CheckSites(al *align, orig [][]uint8, n, L int, ends bool, qual, defin
 			verifAssert(got[t] == orig[i][kept[t]], "result holds exactly the kept columns, in order")
 		}
 	}
-	// --- which columns: oracle (branch-free on symbolic values: 0/1 integers)
-	allDef := 1
+	// --- which columns, and the two counts
 	for j := 0; j < L; j++ {
-		d := vfC12B2I(defined[j])
-		allDef &= d
-	}
-	pre, suf := 0, 0
-	run := 1
-	for j := 0; j < L; j++ {
-		q := vfC12B2I(qual[j])
-		run &= q
-		pre += run
-	}
-	run = 1
-	for j := L - 1; j >= 0; j-- {
-		q := vfC12B2I(qual[j])
-		run &= q
-		suf += run
-	}
-	verifAssert(allDef == 0 || first == pre, "first = length of the maximal qualifying prefix")
-	verifAssert(allDef == 0 || last == suf, "last = length of the maximal qualifying suffix")
-	for j := 0; j < L; j++ {
-		r := vfC12B2I(inRm[j])
-		if ends {
-			verifAssert(allDef == 0 || (r == 1) == (j < pre || j >= L-suf), "ends mode removes exactly the maximal qualifying prefix and suffix")
+		if inRm[j] {
+			verifAssert(e.okRemoved[j], "a removed site qualifies (ends mode: lies in the maximal qualifying prefix or suffix)")
 		} else {
-			d := vfC12B2I(defined[j])
-			q := vfC12B2I(qual[j])
-			verifAssert(d == 0 || r == q, "site removed iff it qualifies")
+			verifAssert(e.okKept[j], "a kept site does not qualify (ends mode: lies outside the maximal qualifying prefix and suffix)")
 		}
 	}
+	if first < 0 || first > L || last < 0 || last > L {
+		verifAssert(false, "leading/trailing counts inside 0..L")
+		return
+	}
+	verifAssert(e.okFirst[first], "first = length of the maximal qualifying prefix")
+	verifAssert(e.okLast[last], "last = length of the maximal qualifying suffix")
 }
 
-// vfC12Cfg bounds one run of the site-cleaning harness body.
-type vfC12Cfg struct {
-	ends                   bool
-	nmin, nmax, lmin, lmax int
-	maxCells2              int   // two-character sets only while n*L <= maxCells2 (one character otherwise)
-	ks                     []int // cutoffs, in eighths
-	mode                   int   // 0 main; 1 only inputs of finding vfC12KeyWild; 2 only inputs of vfC12KeyCounted
+// vfC12Align builds an n x L alignment of fresh symbolic residues. The caller must assume the
+// returned domain condition (one assume for all cells: every assume is a solver query).
+func vfC12Align(alphabet, n, L int, ok func(uint8) bool) (*align, [][]uint8, bool) {
+	al := NewAlign(alphabet)
+	orig := make([][]uint8, n)
+	dom := true
+	for i := 0; i < n; i++ {
+		s := make([]uint8, L)
+		orig[i] = make([]uint8, L)
+		for j := range s {
+			s[j] = nondetByte()
+			d := ok(s[j])
+			dom = dom && d
+			orig[i][j] = s[j]
+		}
+		if err := al.AddSequenceChar(vfNames[i], s, ""); err != nil {
+			panic("harness: cannot build alignment: " + err.Error())
+		}
+	}
+	return al, orig, dom
+}
+
+// vfC12Shape is one shape of the site/sequence harness bodies: n rows, L columns, the cutoffs
+// (in eighths) tried on it, and whether two-character sets are tried besides single characters.
+// ks == nil stands for a symbolic cutoff k/8 with k in 0..8 (nondetDyadic): all nine values in one
+// path, at the price of a non-linear product cutoff*float64(total) in the library's comparison.
+type vfC12Shape struct {
+	n, L int
+	ks   []int
+	two  bool
 }
 
 // vfC12KsQuick: for n<=3 the attainable fractions are 0, 1/3, 1/2, 2/3, 1; the cutoffs 0, 3/8, 1/2,
@@ -183,263 +228,342 @@ type vfC12Cfg struct {
 var vfC12KsQuick = []int{0, 3, 4, 5, 8}
 var vfC12KsAll = []int{0, 1, 2, 3, 4, 5, 6, 7, 8}
 
-// vfC12SitesBody drives RemoveCharacterSites.
-func vfC12SitesBody(cfg vfC12Cfg) {
+// vfC12SitesBody drives RemoveCharacterSites on one of the given shapes.
+// mode 0: main harness; 1: only inputs of finding vfC12KeyWild; 2: only inputs of vfC12KeyCounted.
+func vfC12SitesBody(ends bool, shapes []vfC12Shape, mode int) {
+	sh := shapes[nondetRange(0, len(shapes)-1)]
+	n, L := sh.n, sh.L
 	alphabet := NUCLEOTIDS
 	if nondetRange(0, 1) == 1 {
 		alphabet = AMINOACIDS
 	}
-	n := nondetRange(cfg.nmin, cfg.nmax)
-	L := nondetRange(cfg.lmin, cfg.lmax)
 	nc := 1
-	if n*L <= cfg.maxCells2 {
+	if sh.two {
 		nc = nondetRange(1, 2)
 	}
-	// ignoreCase changes the control flow of the membership test a lot: explicit case split
+	// ignoreCase changes the control flow of the membership test a lot: explicit case split;
+	// the other three flags are symbolic
 	ignoreCase := nondetRange(0, 1) == 1
-	k := cfg.ks[nondetRange(0, len(cfg.ks)-1)]
-	cutoff := float64(k) / 8
-	al, orig := vfSymAlign(alphabet, n, L, vfC12Res)
+	al, orig, dom := vfC12Align(alphabet, n, L, vfC12Res)
 	c := make([]uint8, nc)
 	for t := range c {
 		c[t] = nondetByte()
-		assume(vfC12Res(c[t]))
+		d := vfC12Res(c[t])
+		dom = dom && d
 	}
 	ignoreGaps, ignoreNs, reverse := nondetBool(), nondetBool(), nondetBool()
 
-	// oracle
-	qual := make([]bool, L)
-	defined := make([]bool, L)
+	// oracle: count and total per column
+	count := make([]int, L)
+	total := make([]int, L)
 	wildRegion, countedRegion := false, false
 	for j := 0; j < L; j++ {
-		count, total := 0, 0
 		for i := 0; i < n; i++ {
 			r := orig[i][j]
 			ex := vfC12Excluded(alphabet, r, ignoreGaps, ignoreNs)
 			sel := vfC12Selected(c, r, ignoreCase, reverse)
-			total += vfC12B2I(!ex)
-			count += vfC12B2I(!ex && sel)
-			countedRegion = countedRegion || (ex && sel)
-			wildRegion = wildRegion || (ignoreNs && (r == 'N' || r == 'n' || r == 'X' || r == 'x'))
+			if !ex {
+				total[j]++
+				if sel {
+					count[j]++
+				}
+			} else if sel {
+				countedRegion = true
+			}
+			if ignoreNs && (r == 'N' || r == 'n' || r == 'X' || r == 'x') {
+				wildRegion = true
+			}
 		}
-		qual[j] = vfC12Qualifies(count, total, k)
-		defined[j] = total > 0
 	}
-	switch cfg.mode {
+	switch mode {
 	case 0:
 		if vfC12Known(vfC12KeyWild) {
-			assume(!wildRegion)
+			dom = dom && !wildRegion
 		}
 		if vfC12Known(vfC12KeyCounted) {
-			assume(!countedRegion)
+			dom = dom && !countedRegion
 		}
 	case 1:
-		assume(wildRegion && !countedRegion)
+		dom = dom && wildRegion && !countedRegion
 	case 2:
-		assume(countedRegion && !wildRegion)
+		dom = dom && countedRegion && !wildRegion
 	}
+	assume(dom)
+	// the cutoff is chosen last: the work above is shared by all cutoffs
+	var k int
+	var cutoff float64
+	if sh.ks == nil {
+		// symbolic cutoff k/8, k in 0..8 (see vfC12Shape)
+		cutoff = nondetDyadic(8, 0, 8)
+		k = int(cutoff * 8)
+	} else {
+		k = sh.ks[nondetRange(0, len(sh.ks)-1)]
+		cutoff = float64(k) / 8
+	}
+	qual := make([]bool, L)
+	defined := make([]bool, L)
+	for j := 0; j < L; j++ {
+		qual[j] = vfC12Qualifies(count[j], total[j], k)
+		defined[j] = total[j] > 0
+	}
+	exp := vfC12ExpectSites(L, ends, qual, defined)
 
-	first, last, kept, rm := al.RemoveCharacterSites(c, cutoff, cfg.ends, ignoreCase, ignoreGaps, ignoreNs, reverse)
+	first, last, kept, rm := al.RemoveCharacterSites(c, cutoff, ends, ignoreCase, ignoreGaps, ignoreNs, reverse)
 	verifReach("cleaned")
-	if len(rm) > 0 && len(kept) > 0 {
-		verifReach("some removed, some kept")
+	if len(rm) > 0 {
+		verifReach("a site removed")
 	}
-	vfC12CheckSites(al, orig, n, L, cfg.ends, qual, defined, first, last, kept, rm)
+	if len(kept) > 0 {
+		verifReach("a site kept")
+	}
+	vfC12CheckSites(al, orig, n, L, exp, first, last, kept, rm)
 }
 
 // H_C12_sites: RemoveCharacterSites without ends mode removes a site iff it qualifies.
-// bounds: nucleotide and protein alignments, one column (the rule is column-local), rows n<=3, residues and character set (1 character; 2 characters for n<=2) over {- N n X x A a C . ?}, ignoreCase/ignoreGaps/ignoreNs/reverse all 16 combinations, cutoff in {0, 3/8, 1/2, 5/8, 1}
+// bounds: nucleotide and protein alignments, one column (the rule is column-local), rows n<=3, residues and character set (1 character; also 2 characters for n<=2) over {- N n X x A a C . ?}, ignoreCase/ignoreGaps/ignoreNs/reverse all 16 combinations, cutoff in {0, 3/8, 1/2, 5/8, 1}
 // outside: n>3, L>1 (see H_C12_sites_cols and the thorough twin), non-dyadic cutoffs (rounding at exact ties), sites whose rows are all excluded by the ignore options (0/0: nothing asserted), residues outside the critical set
 func H_C12_sites() {
-	vfC12SitesBody(vfC12Cfg{ends: false, nmin: 1, nmax: 3, lmin: 1, lmax: 1, maxCells2: 2, ks: vfC12KsQuick})
+	vfC12SitesBody(false, []vfC12Shape{{1, 1, vfC12KsQuick, true}, {2, 1, vfC12KsQuick, true}, {3, 1, vfC12KsQuick, false}}, 0)
 }
 
 // H_C12_sites_cols: as H_C12_sites on two columns (every column judged on its own, result rebuilt from the kept ones).
-// bounds: both alphabets, L=2, n<=2, one character, residues over {- N n X x A a C . ?}, all 16 option combinations, cutoff in {0, 1/2, 1}
+// bounds: both alphabets, L=2, one row with cutoff in {0, 1/2, 1} and two rows with cutoff 1/2, one character, residues over {- N n X x A a C . ?}, all 16 option combinations
 // outside: n>2, L>2, non-dyadic cutoffs, undefined fractions
 func H_C12_sites_cols() {
-	vfC12SitesBody(vfC12Cfg{ends: false, nmin: 1, nmax: 2, lmin: 2, lmax: 2, maxCells2: 0, ks: []int{0, 4, 8}})
+	vfC12SitesBody(false, []vfC12Shape{{1, 2, []int{0, 4, 8}, false}, {2, 2, []int{4}, false}}, 0)
 }
 
-// H_C12_sites_deep: as H_C12_sites with all cutoffs k/8 and up to two columns.
-// bounds: as H_C12_sites with n<=3, L<=2, cutoff k/8 for k in 0..8, 2-character sets for n*L<=3
+// H_C12_sites_deep: as H_C12_sites with all cutoffs k/8, two-character sets on three rows and two columns.
+// bounds: as H_C12_sites with shapes 1x1, 2x1, 3x1, 1x2 (1-2 characters, cutoff k/8 for k in 0..8), 2x2 (one character, k in 0..8) and 3x2 (one character, cutoff 1/2)
 // outside: n>3, L>2, non-dyadic cutoffs, undefined fractions
-//verif: tier=thorough
+// verif: tier=thorough
 func H_C12_sites_deep() {
-	vfC12SitesBody(vfC12Cfg{ends: false, nmin: 1, nmax: 3, lmin: 1, lmax: 2, maxCells2: 3, ks: vfC12KsAll})
+	vfC12SitesBody(false, []vfC12Shape{{1, 1, vfC12KsAll, true}, {2, 1, vfC12KsAll, true}, {3, 1, vfC12KsAll, true},
+		{1, 2, vfC12KsAll, true}, {2, 2, vfC12KsAll, false}, {3, 2, []int{4}, false}}, 0)
 }
 
 // H_C12_sites_ends: RemoveCharacterSites in ends mode removes exactly the maximal qualifying prefix and suffix.
-// bounds: both alphabets, one row with L<=3 columns and two rows with L=2, one character, residues over {- N n X x A a C . ?}, all 16 option combinations, cutoff in {0, 1/2, 1}
+// bounds: both alphabets, one row with L<=3 columns (cutoff 0 and 1/2 for L<=2, 1/2 for L=3; with one row every cutoff gives the same verdicts) and two rows with L=2 (cutoff 1/2), one character, residues over {- N n X x A a C . ?}, all 16 option combinations
 // outside: L>3, n>2 (thorough twin), non-dyadic cutoffs, alignments with a site whose rows are all excluded (prefix/suffix undefined: only the structural assertions apply)
 func H_C12_sites_ends() {
-	if nondetRange(0, 1) == 0 {
-		vfC12SitesBody(vfC12Cfg{ends: true, nmin: 1, nmax: 1, lmin: 1, lmax: 3, maxCells2: 0, ks: []int{0, 4, 8}})
-	} else {
-		vfC12SitesBody(vfC12Cfg{ends: true, nmin: 2, nmax: 2, lmin: 2, lmax: 2, maxCells2: 0, ks: []int{0, 4, 8}})
-	}
+	vfC12SitesBody(true, []vfC12Shape{{1, 1, []int{0, 4}, false}, {1, 2, []int{0, 4}, false}, {1, 3, []int{4}, false}, {2, 2, []int{4}, false}}, 0)
 }
 
 // H_C12_sites_ends_deep: as H_C12_sites_ends, deeper.
-// bounds: as H_C12_sites_ends with n<=2, L<=4 (n*L<=6), cutoff k/8 for k in 0..8
+// bounds: as H_C12_sites_ends with shapes 1x3 (1-2 characters), 1x4, 2x2 (cutoff k/8 for k in 0..8) and 2x3 (cutoff in {0, 1/2, 1})
 // outside: n>2, L>4
-//verif: tier=thorough
+// verif: tier=thorough
 func H_C12_sites_ends_deep() {
-	if nondetRange(0, 1) == 0 {
-		vfC12SitesBody(vfC12Cfg{ends: true, nmin: 1, nmax: 1, lmin: 1, lmax: 4, maxCells2: 2, ks: vfC12KsAll})
-	} else {
-		vfC12SitesBody(vfC12Cfg{ends: true, nmin: 2, nmax: 2, lmin: 2, lmax: 3, maxCells2: 0, ks: vfC12KsAll})
-	}
+	vfC12SitesBody(true, []vfC12Shape{{1, 3, vfC12KsAll, true}, {1, 4, vfC12KsAll, false}, {2, 2, vfC12KsAll, false}, {2, 3, []int{0, 4, 8}, false}}, 0)
+}
+
+// H_C12_sites_dyadic: as H_C12_sites with a symbolic cutoff k/8 (every k in 0..8 at once, ties included).
+// bounds: both alphabets, one column, rows n in 2..3, one character, residues over {- N n X x A a C . ?}, all 16 option combinations, cutoff k/8 for every k in 0..8
+// outside: n>3, L>1, non-dyadic cutoffs, undefined fractions
+// assumes: thorough tier only - the non-linear queries sometimes exceed the 20 s quick-tier solver limit on a loaded machine
+// verif: tier=thorough
+func H_C12_sites_dyadic() {
+	vfC12SitesBody(false, []vfC12Shape{{2, 1, nil, false}, {3, 1, nil, false}}, 0)
 }
 
 // H_C12_cutoff_range: a cutoff outside [0,1] behaves as the cutoff 0.
-// bounds: both alphabets, n<=2, L<=2, one character, cutoff in {-1/8, 9/8}, ends off, residues over {- N n X x A a C . ?}
+// bounds: both alphabets, n<=2, L=1, one character, cutoff in {-1/8, 9/8}, ends off, residues over {- N n X x A a C . ?}
 // outside: other out-of-range values (NaN, infinities)
 func H_C12_cutoff_range() {
-	vfC12SitesBody(vfC12Cfg{ends: false, nmin: 1, nmax: 2, lmin: 1, lmax: 1, maxCells2: 0, ks: []int{-1, 9}})
+	vfC12SitesBody(false, []vfC12Shape{{1, 1, []int{-1, 9}, false}, {2, 1, []int{-1, 9}, false}}, 0)
 }
 
 // K_C12_sites_wildcard: demonstrates that RemoveCharacterSites ignores the wildcard of the other alphabet.
 // bounds: n<=2, L=1, ignoreNs with a wildcard residue present
-//verif: known=C12-sites-wildcard-of-other-alphabet expect=violation
+// verif: known=C12-sites-wildcard-of-other-alphabet expect=violation
 func K_C12_sites_wildcard() {
-	vfC12SitesBody(vfC12Cfg{ends: false, nmin: 1, nmax: 2, lmin: 1, lmax: 1, maxCells2: 0, ks: []int{4, 8}, mode: 1})
+	vfC12SitesBody(false, []vfC12Shape{{1, 1, []int{4, 8}, false}, {2, 1, []int{4, 8}, false}}, 1)
 }
 
 // K_C12_sites_counted: demonstrates that cells excluded by the ignore options are still counted as matching.
 // bounds: n<=2, L=1, an excluded cell matches the selection
-//verif: known=C12-ignored-cells-counted expect=violation
+// verif: known=C12-ignored-cells-counted expect=violation
 func K_C12_sites_counted() {
-	vfC12SitesBody(vfC12Cfg{ends: false, nmin: 1, nmax: 2, lmin: 1, lmax: 1, maxCells2: 0, ks: []int{4, 8}, mode: 2})
+	vfC12SitesBody(false, []vfC12Shape{{1, 1, []int{4, 8}, false}, {2, 1, []int{4, 8}, false}}, 2)
 }
 
 // H_C12_gapsites: RemoveGapSites(cutoff, ends) removes sites by their fraction of gaps over all rows.
-// bounds: both alphabets, rows n<=3, columns L<=3, residues over {- N n X x A a C . ?}, ends on/off, cutoff k/8 for k in -1..9
+// bounds: both alphabets, residues over {- N n X x A a C . ?}; ends off: one column with n<=3 rows and cutoff in {0, 3/8, 1/2, 5/8, 1, -1/8, 9/8}, 2x2 with cutoff 1/2; ends on: 1x3 and 2x2 with cutoff in {0, 1/2, 1}
 // outside: n>3, L>3, non-dyadic cutoffs
 func H_C12_gapsites() {
+	ends := nondetRange(0, 1) == 1
+	var shapes []vfC12Shape
+	if ends {
+		shapes = []vfC12Shape{{1, 3, []int{0, 4, 8}, false}, {2, 2, []int{0, 4, 8}, false}}
+	} else {
+		ks := []int{0, 3, 4, 5, 8, -1, 9}
+		shapes = []vfC12Shape{{1, 1, ks, false}, {2, 1, ks, false}, {3, 1, ks, false}, {2, 2, []int{4}, false}}
+	}
+	sh := shapes[nondetRange(0, len(shapes)-1)]
+	n, L := sh.n, sh.L
 	alphabet := NUCLEOTIDS
 	if nondetRange(0, 1) == 1 {
 		alphabet = AMINOACIDS
 	}
-	ends := nondetRange(0, 1) == 1
-	n := nondetRange(1, 3)
-	L := nondetRange(1, 3)
-	al, orig := vfSymAlign(alphabet, n, L, vfC12Res)
-	cutoff, k := vfC12Cutoff(-1, 9)
+	al, orig, dom := vfC12Align(alphabet, n, L, vfC12Res)
+	assume(dom)
+	count := make([]int, L)
+	for j := 0; j < L; j++ {
+		for i := 0; i < n; i++ {
+			if orig[i][j] == '-' {
+				count[j]++
+			}
+		}
+	}
+	k := sh.ks[nondetRange(0, len(sh.ks)-1)]
+	cutoff := float64(k) / 8
 	qual := make([]bool, L)
 	defined := make([]bool, L)
 	for j := 0; j < L; j++ {
-		count := 0
-		for i := 0; i < n; i++ {
-			count += vfC12B2I(orig[i][j] == '-')
-		}
-		qual[j] = vfC12Qualifies(count, n, k)
+		qual[j] = vfC12Qualifies(count[j], n, k)
 		defined[j] = true
 	}
+	exp := vfC12ExpectSites(L, ends, qual, defined)
 	first, last, kept, rm := al.RemoveGapSites(cutoff, ends)
 	verifReach("cleaned")
-	vfC12CheckSites(al, orig, n, L, ends, qual, defined, first, last, kept, rm)
+	vfC12CheckSites(al, orig, n, L, exp, first, last, kept, rm)
 }
 
 // vfC12MajorityBody drives RemoveMajorityCharacterSites.
-func vfC12MajorityBody(nmin, nmax, lmin, lmax int) {
+func vfC12MajorityBody(shapes []vfC12Shape) {
+	sh := shapes[nondetRange(0, len(shapes)-1)]
+	n, L, ks := sh.n, sh.L, sh.ks
 	alphabet := NUCLEOTIDS
 	if nondetRange(0, 1) == 1 {
 		alphabet = AMINOACIDS
 	}
 	ends := nondetRange(0, 1) == 1
-	n := nondetRange(nmin, nmax)
-	L := nondetRange(lmin, lmax)
-	al, orig := vfSymAlign(alphabet, n, L, vfC12Res)
+	al, orig, dom := vfC12Align(alphabet, n, L, vfC12Res)
 	ignoreGaps, ignoreNs := nondetBool(), nondetBool()
-	cutoff, k := vfC12Cutoff(-1, 9)
 
-	qual := make([]bool, L)
-	defined := make([]bool, L)
+	best := make([]int, L)
+	total := make([]int, L)
 	for j := 0; j < L; j++ {
-		total, best := 0, 0
 		for i := 0; i < n; i++ {
 			r := orig[i][j]
-			ex := vfC12Excluded(alphabet, r, ignoreGaps, ignoreNs)
-			total += vfC12B2I(!ex)
-			// occurrences of this row's character among the non-excluded rows
+			if vfC12Excluded(alphabet, r, ignoreGaps, ignoreNs) {
+				continue
+			}
+			total[j]++
+			// occurrences of this row's character in the column (rows holding the same
+			// character are excluded or not together)
 			occ := 0
 			for i2 := 0; i2 < n; i2++ {
 				r2 := orig[i2][j]
-				occ += vfC12B2I(r2 == r)
-				// the property does not say whether the majority count folds case: columns
-				// holding one letter in both cases are outside the claim
-				assume(r2 == r || vfC12Fold(r2) != vfC12Fold(r))
+				if r2 == r {
+					occ++
+				} else if vfC12Fold(r2) == vfC12Fold(r) {
+					// the property does not say whether the majority count folds case:
+					// columns holding one letter in both cases are outside the claim
+					dom = false
+				}
 			}
-			if !ex && occ > best {
-				best = occ
+			if occ > best[j] {
+				best[j] = occ
 			}
 		}
-		qual[j] = vfC12Qualifies(best, total, k)
-		defined[j] = total > 0
 	}
+	assume(dom)
+	k := ks[nondetRange(0, len(ks)-1)]
+	cutoff := float64(k) / 8
+	qual := make([]bool, L)
+	defined := make([]bool, L)
+	for j := 0; j < L; j++ {
+		qual[j] = vfC12Qualifies(best[j], total[j], k)
+		defined[j] = total[j] > 0
+	}
+	exp := vfC12ExpectSites(L, ends, qual, defined)
 	first, last, kept, rm := al.RemoveMajorityCharacterSites(cutoff, ends, ignoreGaps, ignoreNs)
 	verifReach("cleaned")
-	if len(rm) > 0 && len(kept) > 0 {
-		verifReach("some removed, some kept")
+	if len(rm) > 0 {
+		verifReach("a site removed")
 	}
-	vfC12CheckSites(al, orig, n, L, ends, qual, defined, first, last, kept, rm)
+	if len(kept) > 0 {
+		verifReach("a site kept")
+	}
+	vfC12CheckSites(al, orig, n, L, exp, first, last, kept, rm)
 }
 
 // H_C12_majority: RemoveMajorityCharacterSites removes a site iff its most frequent character (among the rows not excluded) reaches the cutoff; ends mode as for characters.
-// bounds: both alphabets, rows n<=3, columns L<=2, residues over {- N n X x A a C . ?}, ends/ignoreGaps/ignoreNs all 8 combinations, cutoff k/8 for k in -1..9
-// outside: n>3, L>2 (thorough twin L=3), non-dyadic cutoffs, sites whose rows are all excluded (nothing asserted), columns holding the same letter in both cases (the property does not say whether the majority count folds case)
-func H_C12_majority() { vfC12MajorityBody(1, 3, 1, 2) }
+// bounds: both alphabets, shapes 1x1, 2x1, 3x1 (cutoff in {0, 3/8, 1/2, 5/8, 1}) and 1x2, 2x2 (cutoff in {0, 1/2, 1}), residues over {- N n X x A a C . ?}, ends/ignoreGaps/ignoreNs all 8 combinations
+// outside: n>3, L>2, non-dyadic cutoffs, sites whose rows are all excluded (nothing asserted), columns holding the same letter in both cases (the property does not say whether the majority count folds case)
+func H_C12_majority() {
+	ks3 := []int{0, 4, 8}
+	vfC12MajorityBody([]vfC12Shape{{1, 1, vfC12KsQuick, false}, {2, 1, vfC12KsQuick, false}, {3, 1, vfC12KsQuick, false}, {1, 2, ks3, false}, {2, 2, ks3, false}})
+}
 
-// H_C12_majority_deep: as H_C12_majority with three columns.
-// bounds: as H_C12_majority with n in 2..3, L=3
+// H_C12_majority_deep: as H_C12_majority, deeper.
+// bounds: as H_C12_majority with shapes 3x1, 2x2 (cutoff k/8 for k in 0..8), 3x2 and 2x3 (cutoff in {0, 1/2, 1})
 // outside: n>3, L>3
-//verif: tier=thorough
-func H_C12_majority_deep() { vfC12MajorityBody(2, 3, 3, 3) }
+// verif: tier=thorough
+func H_C12_majority_deep() {
+	ks3 := []int{0, 4, 8}
+	vfC12MajorityBody([]vfC12Shape{{3, 1, vfC12KsAll, false}, {2, 2, vfC12KsAll, false}, {3, 2, ks3, false}, {2, 3, ks3, false}})
+}
 
 // vfC12SeqsBody drives RemoveCharacterSeqs (gapVariant: RemoveGapSeqs).
-func vfC12SeqsBody(gapVariant bool, nmin, nmax, lmin, lmax int, mode int) {
+func vfC12SeqsBody(gapVariant bool, shapes []vfC12Shape, mode int) {
+	sh := shapes[nondetRange(0, len(shapes)-1)]
+	n, L, ks := sh.n, sh.L, sh.ks
 	alphabet := NUCLEOTIDS
 	if nondetRange(0, 1) == 1 {
 		alphabet = AMINOACIDS
 	}
-	n := nondetRange(nmin, nmax)
-	L := nondetRange(lmin, lmax)
-	al, orig := vfSymAlign(alphabet, n, L, vfC12Res)
 	c := uint8('-')
 	ignoreCase, ignoreGaps := false, false
 	if !gapVariant {
+		ignoreCase = nondetRange(0, 1) == 1
+	}
+	al, orig, dom := vfC12Align(alphabet, n, L, vfC12Res)
+	if !gapVariant {
 		c = nondetByte()
-		assume(vfC12Res(c))
-		ignoreCase, ignoreGaps = nondetBool(), nondetBool()
+		d := vfC12Res(c)
+		dom = dom && d
+		ignoreGaps = nondetBool()
 	}
 	ignoreNs := nondetBool()
-	cutoff, k := vfC12Cutoff(-1, 9)
 
 	cs := []uint8{c}
-	qual := make([]bool, n)
-	defined := make([]bool, n)
+	count := make([]int, n)
+	total := make([]int, n)
 	countedRegion := false
 	for i := 0; i < n; i++ {
-		count, total := 0, 0
 		for j := 0; j < L; j++ {
 			r := orig[i][j]
 			ex := vfC12Excluded(alphabet, r, ignoreGaps, ignoreNs)
 			sel := vfC12Selected(cs, r, ignoreCase, false)
-			total += vfC12B2I(!ex)
-			count += vfC12B2I(!ex && sel)
-			countedRegion = countedRegion || (ex && sel)
+			if !ex {
+				total[i]++
+				if sel {
+					count[i]++
+				}
+			} else if sel {
+				countedRegion = true
+			}
 		}
-		qual[i] = vfC12Qualifies(count, total, k)
-		defined[i] = total > 0
 	}
 	switch mode {
 	case 0:
 		if vfC12Known(vfC12KeyCounted) {
-			assume(!countedRegion)
+			dom = dom && !countedRegion
 		}
 	case 2:
-		assume(countedRegion)
+		dom = dom && countedRegion
+	}
+	assume(dom)
+	k := ks[nondetRange(0, len(ks)-1)]
+	cutoff := float64(k) / 8
+	okRemoved := make([]bool, n)
+	okKept := make([]bool, n)
+	for i := 0; i < n; i++ {
+		q := vfC12Qualifies(count[i], total[i], k)
+		okRemoved[i] = total[i] == 0 || q
+		okKept[i] = total[i] == 0 || !q
 	}
 
 	var nrm int
@@ -450,8 +574,11 @@ func vfC12SeqsBody(gapVariant bool, nmin, nmax, lmin, lmax int, mode int) {
 	}
 	verifReach("cleaned")
 	nb := al.NbSequences()
-	if nb > 0 && nb < n {
-		verifReach("some removed, some kept")
+	if nb > 0 {
+		verifReach("a sequence kept")
+	}
+	if nb < n {
+		verifReach("a sequence removed")
 	}
 	verifAssert(nrm == n-nb, "returned count is the number of removed sequences")
 	if nb > 0 {
@@ -464,68 +591,94 @@ func vfC12SeqsBody(gapVariant bool, nmin, nmax, lmin, lmax int, mode int) {
 			name, _ := al.GetSequenceNameById(t)
 			present = name == vfNames[i]
 		}
-		verifAssert(!defined[i] || present == !qual[i], "sequence removed iff it qualifies")
 		if present {
+			verifAssert(okKept[i], "a kept sequence does not qualify")
 			got, _ := al.GetSequenceCharById(t)
 			verifAssert(len(got) == L, "kept sequence keeps its length")
 			for j := 0; j < L && j < len(got); j++ {
 				verifAssert(got[j] == orig[i][j], "kept sequence unchanged")
 			}
 			t++
+		} else {
+			verifAssert(okRemoved[i], "a removed sequence qualifies")
 		}
 	}
 	verifAssert(t == nb, "result holds only original sequences, in the original order")
 }
 
 // H_C12_seqs: RemoveCharacterSeqs removes a sequence iff its fraction of the character reaches the cutoff; the others are kept intact and in order.
-// bounds: both alphabets, rows n<=2, columns L<=3, residues and the character over {- N n X x A a C . ?}, ignoreCase/ignoreGaps/ignoreNs all 8 combinations, cutoff k/8 for k in -1..9
-// outside: n>2, L>3 (thorough twin n=3), non-dyadic cutoffs, sequences whose columns are all excluded (nothing asserted)
-func H_C12_seqs() { vfC12SeqsBody(false, 1, 2, 1, 3, 0) }
+// bounds: both alphabets, shapes 1x1, 1x2, 1x3 (cutoff in {0, 3/8, 1/2, 5/8, 1}) and 2x1, 2x2 (cutoff in {0, 1/2, 1}), residues and the character over {- N n X x A a C . ?}, ignoreCase/ignoreGaps/ignoreNs all 8 combinations
+// outside: n>2, L>3, non-dyadic cutoffs, sequences whose columns are all excluded (nothing asserted)
+func H_C12_seqs() {
+	ks3 := []int{0, 4, 8}
+	vfC12SeqsBody(false, []vfC12Shape{{1, 1, vfC12KsQuick, false}, {1, 2, vfC12KsQuick, false}, {1, 3, vfC12KsQuick, false}, {2, 1, ks3, false}, {2, 2, ks3, false}}, 0)
+}
 
-// H_C12_seqs_deep: as H_C12_seqs with three rows.
-// bounds: as H_C12_seqs with n=3, L in 2..3
+// H_C12_seqs_deep: as H_C12_seqs, deeper.
+// bounds: as H_C12_seqs with shapes 1x3, 2x2 (cutoff k/8 for k in 0..8), 2x3 and 3x2 (cutoff in {0, 1/2, 1})
 // outside: n>3, L>3
-//verif: tier=thorough
-func H_C12_seqs_deep() { vfC12SeqsBody(false, 3, 3, 2, 3, 0) }
+// verif: tier=thorough
+func H_C12_seqs_deep() {
+	ks3 := []int{0, 4, 8}
+	vfC12SeqsBody(false, []vfC12Shape{{1, 3, vfC12KsAll, false}, {2, 2, vfC12KsAll, false}, {2, 3, ks3, false}, {3, 2, ks3, false}}, 0)
+}
 
 // H_C12_gapseqs: RemoveGapSeqs(cutoff, ignoreNs) is the gap instance of the sequence rule.
-// bounds: both alphabets, rows n<=2, columns L<=3, residues over {- N n X x A a C . ?}, ignoreNs on/off, cutoff k/8 for k in -1..9
+// bounds: both alphabets, shapes 1x1, 1x2, 1x3, 2x1, 2x2, 2x3, residues over {- N n X x A a C . ?}, ignoreNs on/off, cutoff in {0, 3/8, 1/2, 5/8, 1} and the out-of-range values -1/8, 9/8
 // outside: n>2, L>3, non-dyadic cutoffs, sequences made only of wildcards with ignoreNs (nothing asserted)
-func H_C12_gapseqs() { vfC12SeqsBody(true, 1, 2, 1, 3, 0) }
+func H_C12_gapseqs() {
+	ks := []int{0, 3, 4, 5, 8, -1, 9}
+	vfC12SeqsBody(true, []vfC12Shape{{1, 1, ks, false}, {1, 2, ks, false}, {1, 3, ks, false}, {2, 1, ks, false}, {2, 2, ks, false}, {2, 3, ks, false}}, 0)
+}
 
 // K_C12_seqs_counted: demonstrates that RemoveCharacterSeqs counts cells excluded by the ignore options as matching.
-// bounds: n=1, L<=2, an excluded cell matches the character
-//verif: known=C12-ignored-cells-counted expect=violation
-func K_C12_seqs_counted() { vfC12SeqsBody(false, 1, 1, 1, 2, 2) }
+// bounds: 1x1 and 1x2, an excluded cell matches the character
+// verif: known=C12-ignored-cells-counted expect=violation
+func K_C12_seqs_counted() {
+	vfC12SeqsBody(false, []vfC12Shape{{1, 1, []int{4, 8}, false}, {1, 2, []int{4, 8}, false}}, 2)
+}
 
 // H_C12_kept_removed_partition: for every input the reported kept/removed indices partition the columns and the result is the selection of the kept columns (no oracle for which columns).
-// bounds: both alphabets, rows n<=2, columns L<=4, residues and 1-2 characters any printable ASCII 0x21..0x7e, all 32 option combinations, cutoff k/8 for k in -1..9
-// outside: n>2, L>4, bytes >= 0x80
+// bounds: both alphabets, shapes 1x1, 2x1, 1x2, 1x3, residues and the character (two characters on 1x1) any printable ASCII 0x21..0x7e, all 32 option combinations, cutoff in {0, 1/2, 9/8}
+// outside: n>2, L>3, bytes >= 0x80
 func H_C12_kept_removed_partition() {
 	alphabet := NUCLEOTIDS
 	if nondetRange(0, 1) == 1 {
 		alphabet = AMINOACIDS
 	}
-	n := nondetRange(1, 2)
-	L := nondetRange(1, 4)
-	nc := nondetRange(1, 2)
-	al, orig := vfSymAlign(alphabet, n, L, vfC12Printable)
+	shapes := [][2]int{{1, 1}, {2, 1}, {1, 2}, {1, 3}}
+	sh := shapes[nondetRange(0, len(shapes)-1)]
+	n, L := sh[0], sh[1]
+	nc := 1
+	if n*L == 1 {
+		nc = nondetRange(1, 2)
+	}
+	ends := nondetRange(0, 1) == 1
+	ignoreCase := nondetRange(0, 1) == 1
+	al, orig, dom := vfC12Align(alphabet, n, L, vfC12Printable)
 	c := make([]uint8, nc)
 	for t := range c {
 		c[t] = nondetByte()
-		assume(vfC12Printable(c[t]))
+		d := vfC12Printable(c[t])
+		dom = dom && d
 	}
-	ends, ignoreCase, ignoreGaps, ignoreNs, reverse := nondetBool(), nondetBool(), nondetBool(), nondetBool(), nondetBool()
-	cutoff, _ := vfC12Cutoff(-1, 9)
+	assume(dom)
+	ignoreGaps, ignoreNs, reverse := nondetBool(), nondetBool(), nondetBool()
+	ks := []int{0, 4, 9}
+	cutoff := float64(ks[nondetRange(0, len(ks)-1)]) / 8
+	// no verdict about which columns: every outcome is acceptable to the oracle
+	var exp vfC12Expect
+	for j := 0; j <= L; j++ {
+		exp.okRemoved = append(exp.okRemoved, true)
+		exp.okKept = append(exp.okKept, true)
+		exp.okFirst = append(exp.okFirst, true)
+		exp.okLast = append(exp.okLast, true)
+	}
 	first, last, kept, rm := al.RemoveCharacterSites(c, cutoff, ends, ignoreCase, ignoreGaps, ignoreNs, reverse)
 	verifReach("cleaned")
-	// no verdict about which columns: mark every column undefined
-	qual := make([]bool, L)
-	defined := make([]bool, L)
-	vfC12CheckSites(al, orig, n, L, false, qual, defined, first, last, kept, rm)
-	// first/last are the lengths of the leading and trailing runs of removed columns when not in
-	// ends mode, and bound them in ends mode
-	verifAssert(first >= 0 && first <= L && last >= 0 && last <= L, "leading/trailing counts inside 0..L")
+	vfC12CheckSites(al, orig, n, L, exp, first, last, kept, rm)
+	// the leading / trailing counts are runs of removed columns at the two ends
+	verifAssert(first >= 0 && first <= len(rm) && last >= 0 && last <= len(rm), "leading/trailing counts do not exceed the number of removed columns")
 	for j := 0; j < len(rm); j++ {
 		if j < first {
 			verifAssert(rm[j] == j, "the leading count columns are removed")
@@ -534,5 +687,7 @@ func H_C12_kept_removed_partition() {
 			verifAssert(rm[len(rm)-1-j] == L-1-j, "the trailing count columns are removed")
 		}
 	}
-	verifAssert(first <= len(rm) && last <= len(rm), "leading/trailing counts do not exceed the number of removed columns")
+	if ends {
+		verifAssert(len(rm) <= first+last, "ends mode removes nothing but the leading and trailing runs")
+	}
 }
